@@ -18,7 +18,7 @@ var signedKinds = map[Kind]bool{KInt: true, KInt8: true, KInt16: true, KInt32: t
 var (
 	AllArgKinds = []Kind{KString, KStringPtr, KStringSlice, KInt, KInt8, KInt16, KInt32, KInt64, KUint, KUint8, KUint16,
 		KUint32, KUint64, KIntSlice, KIntPtr, KUint8Slice, KFloat32, KFloat64, KFloatSlice, KDuration, KDurSlice, KDurPtr, KMapSS, KMapSI, KMapIS, KMapFS,
-		KUpper, KUpperSlice, KTri}
+		KUpper, KUpperSlice, KTri, KValid}
 	FlagKinds = []Kind{KBool, KBoolSlice, KBoolPtr}
 	FuncKinds = []Kind{KFunc0, KFuncS, KFuncI, KFunc0E, KFuncSE}
 	AllKinds  = append(append(append([]Kind{}, AllArgKinds...), FlagKinds...), FuncKinds...)
@@ -211,6 +211,11 @@ func genValidText(t *rapid.T, k Kind, base int) string {
 	}
 	k = k.Elem()
 	switch k {
+	case KValid:
+		if pct(t, "okLooking", 35) {
+			return rapid.SampledFrom([]string{"-ok", "-ok1", "-okay=x", "-ok -v"}).Draw(t, "okValue")
+		}
+		return rapid.SampledFrom(stringPool).Draw(t, "str")
 	case KString, KComp, KUpper:
 		if pct(t, "poolstr", 70) {
 			return rapid.SampledFrom(stringPool).Draw(t, "str")
@@ -288,7 +293,7 @@ func genInvalidText(t *rapid.T, k Kind, base int) string {
 	}
 	k = k.Elem()
 	switch k {
-	case KString, KComp:
+	case KString, KComp, KValid:
 		return ""
 	case KUpper:
 		return "x!bad"
@@ -1002,7 +1007,7 @@ func (g *argvGen) emitPlain() {
 			v := genValidText(t, pa.Kind, 0)
 			if (isOptSyntax(v) || v == "--") && !g.term {
 				switch pa.Kind.Elem() {
-				case KString, KUpper, KComp:
+				case KString, KUpper, KComp, KValid:
 					v = "w" + v
 				default:
 					v = strings.TrimLeft(v, "-")
